@@ -77,3 +77,9 @@ claim('C16', 'exploration', 'AddressSanitizer on poisoned-and-freed declaration 
       'the 1st..4th instance of nested multi sections, setters and prints and must end equal to an unpoisoned twin. For sharing, each operation (parse adding free-form keys, setter, annotation, print callback, validator) is '
       'applied to one context / one section instance and the untouched one must keep an identical dump and print. Random schemas with deep nesting are the right level: a missed field in the deep copy shows only for particular shapes.',
       'Trusts: ASan quarantine keeps freed declaration memory unreused for the duration of a case; "simple" options are shared by design and excluded.')
+
+claim('C07', 'fault_enumeration', 'systematic error-point enumeration (cut / corrupt at every token position, k-th callback failure, errors inside included files) and API histories under AddressSanitizer, an allocation live-table, LeakSanitizer, descriptor and release-callback balance monitors',
+      'Every token position of rich base texts (lists, calls with 0-3 arguments, nested/titled/key=value sections, includes 1-3 deep, pointer options, annotations, search path) is an abort point twice, every callback invocation fails once, '
+      'every token of every included file is an abort point, and all API histories to the depth bound run; after cfg_free the library-allocation live table must be empty, LeakSanitizer silent, descriptors and FILE handles balanced and every '
+      'pointer value released exactly once, with ASan watching for double free / use after free throughout. Ownership bugs are path-specific, so enumerating abort points is the level that reaches them.',
+      'Trusts: allocmon sees all allocations of confuse.c and the generated lexer; libc-internal allocations only through LeakSanitizer; base texts are a finite hand-built + random set.')
